@@ -67,6 +67,12 @@ func TestC11(t *testing.T) {
 		for i := 0; i < rapid.IntRange(1, 3).Draw(t, "nRestarts"); i++ {
 			restarts[rapid.IntRange(0, nb-2).Draw(t, fmt.Sprintf("restartAfter%d", i))] = true
 		}
+		for _, i := range d.failedExecAt {
+			// ... and right after every block that rolled back a proposal which had passed its vote
+			if i < nb-1 {
+				restarts[i] = true
+			}
+		}
 		if diff := compareTraces(traceA, ReplayAs(d.hist, ReplicaOpts{RestartAfter: restarts})); diff != "" {
 			t.Fatalf("a replica that restarted after blocks %v diverged from one that kept running: %s\nhistory:\n%s", restarts, diff, jsonStr(d.log))
 		}
@@ -133,6 +139,9 @@ func TestC11(t *testing.T) {
 		var cl []string
 		if d.passed > 0 {
 			cl = append(cl, "gov_proposal_executed")
+		}
+		if d.failedExec > 0 {
+			cl = append(cl, "gov_proposal_rolled_back_at_execution")
 		}
 		if d.accepted["cfevesting"] > 0 {
 			cl = append(cl, "vesting_tx_accepted")
